@@ -77,6 +77,25 @@ Definition flood_toks (d : flood) : list tok := map tn_N (counters d).
 Definition slot_toks (t : table) : list tok :=
   [tn_nat (List.length (slots t))] ++ map (fun s => tn_bool (is_recycle s)) (slots t).
 
+Fixpoint trailer_fields (args : list tok) : option (list (tkind * N * N)) :=
+  match args with
+  | [] => Some []
+  | TN k :: TN nl :: TN vl :: r =>
+    match trailer_fields r with
+    | Some fs =>
+      let kind := if Z.eqb k 1 then TPseudo else if Z.eqb k 2 then TSpoof else if Z.eqb k 3 then TInvalid else TPlain in
+      Some ((kind, Z.to_N nl, Z.to_N vl) :: fs)
+    | None => None
+    end
+  | _ => None
+  end.
+
+Definition tout_toks (o : tout) : list tok :=
+  match o with
+  | TOk n => [TS "ok"; tn_N n]
+  | TErr e => [TS "err"; TS (err_name e)]
+  end.
+
 Record rstate := mkr { rf : flood; rt : table }.
 
 Definition zn (z : Z) : N := Z.to_N z.
@@ -89,6 +108,14 @@ Definition step (st : rstate) (op : list tok) : rstate * list tok :=
     if name =? "blackbox" then (st, [])   (* a black-box scenario: replayed by the driver, nothing to model *)
     else if name =? "dec" then
       match args with [TN mx; TB bs] => (st, dec_toks bs (zn mx)) | _ => bad end
+    else if name =? "trl" then
+      match args with
+      | TN ml :: TN mf :: TN es :: TN lf :: r =>
+        match trailer_fields r with
+        | Some fs => (st, tout_toks (trailer_outcome (zn ml) (zn mf) (Z.eqb es 1) (Z.eqb lf 1) fs))
+        | None => bad
+        end
+      | _ => bad end
     else if name =? "sdec" then
       match args with [TB bs; TN a] => (st, sdec_toks bs (Z.eqb a 1)) | _ => bad end
     else if name =? "ehdr" then
